@@ -864,6 +864,42 @@ def n11(led, rid, ctx):
               % (sorted(cleared), full))
 
 
+def n7b(led, rid, ctx):
+    """SparseSet::insert brings the element to position `size` on every path before it grows the
+    active part (the active part is the prefix [0, size) — an element that is merely counted in
+    is not the one that was asked for)"""
+    lib = ctx.lib
+    f = lib.method("SparseSet", "insert")
+    R = resolver(f)
+    cfg = f.cfg
+    incs = []
+    for b in f.blocks:
+        for st in b["stmts"]:
+            if st["s"] == "assign" and st["dst"]["proj"] and \
+                    [x.get("name") for x in st["dst"]["proj"] if "field" in x][-1:] == ["size"]:
+                e = R.rvalue(st["rv"])
+                if "size" in e.fields():
+                    incs.append(b["id"])
+    swaps = []
+    for c in f.calls:
+        if c.name != "swap":
+            continue
+        fl = set()
+        for a in c.args[1:]:
+            fl |= set(R.operand(a).fields())
+        if "size" in fl:
+            swaps.append(c.bb)
+    led.check(bool(incs), rid, "SparseSet::insert:grows", f.span, "", "SparseSet::insert no longer grows the active part")
+    for ib in incs:
+        ok = bool(swaps) and not cfg.reaches(0, [ib], avoid=swaps, strict=False)
+        led.check(ok, rid, "SparseSet::insert:swap-before-grow", "%s:%d" % (f.file, f.blocks[ib]["line"]),
+                  "every path to `size += 1` passes swap(size, index)",
+                  "SparseSet::insert can grow the active part without moving the inserted element to position "
+                  "`size`: re-inserting a temporarily removed element that is not stored right behind the active "
+                  "part activates a different element, and the one asked for is lost — the random selector then "
+                  "proposes nothing while that variable is unfixed")
+
+
 def run(ctx, led):
     run_rule(led, "N1", "every variable selector tests fixedness before proposing; filter/find "
              "closures keep the unfixed ones", n1, ctx)
@@ -889,3 +925,8 @@ def run(ctx, led):
     from . import predrules
     run_rule(led, "N10", "Assignments::evaluate_predicate, by which a proposal is judged decided or not, is exact (shared with C02-U10)", predrules.evaluate_exact, ctx)
     run_rule(led, "N11", "INDEX-SPACE: ProportionalDomainSize indexes its variables only through the weight→variable map", n11, ctx)
+    run_rule(led, "N7b", "SparseSet::insert moves the element to position `size` before growing the active part", n7b, ctx)
+    from . import kernel as _kernel
+    _kernel.run_lifecycle(led, ctx, "N")
+    from . import C12 as _C12
+    run_rule(led, "N12", "view `contains` (used by the value selectors) keeps its divisibility guard (shared with C12-V1d)", _C12.v1_divis, ctx)
